@@ -70,7 +70,7 @@ class Check:
     def rule(self):
         return ("generated matching! inputs over methods (u8,u8), (Option<u8>,u8), (&str,String), (&[u8],Vec<u8>), (u8): literals, "
                 "ranges, wildcards, bindings, @-bindings, or-patterns, Some/None, string literals (through AsRef<str>), slice "
-                "patterns with rest (through AsRef<[T]>), eq!/ne! operands, one or two top-level alternatives, guards over "
+                "patterns with rest (through AsRef<[T]>), eq!/ne! operands, one to three top-level alternatives, guards over "
                 "bindings incl. || / && mixes; each is compiled as a real matching! invocation AND as the hand-expanded native "
                 "match; every argument tuple of the finite domain is evaluated through an unordered clause (diagnostics off) and an "
                 "ordered clause (diagnostics on); oracle: both equal the native match; tie: both equal the Lean model's accept bits. "
@@ -80,7 +80,7 @@ class Check:
         rep = engine.Report(self.prop, tier, seed)
         rep.assumptions = ["rustc's own `match` is the independent oracle for pattern semantics; the Lean pattern semantics is validated against it on every case",
                            "patterns outside the generated grammar (struct/enum patterns other than Option, const patterns, macros other than eq!/ne!) are not covered",
-                           "three or more parenthesised top-level alternatives do not parse in the pinned version (`Expected tuple`); the generator stays within one or two"]
+                           "up to three generated top-level alternatives (four in fixed cases)"]
         engine.lean_obligations(self.prop, self.theorems, rep, thorough=(tier == 'thorough'))
         cases = gm.gen_cases(seed, self.n_cases(tier))
         ok, real, model, log = run_cases(cases)
